@@ -40,21 +40,28 @@ for _f in sorted(_g.glob(_o.path.join(_o.path.dirname(_o.path.abspath(__file__))
 
 # ---- GoLite: decision functions regenerated from the Go source on every run (harness/translators/golite) and proved
 # equal to the model's predicates for all arguments (coq/Check/GoLite*.v over coq/gen/GoLiteFuns.v).
+_GL_FILES = {"validate": "Check/GoLiteValidate.v", "submit": "Check/GoLiteSubmit.v", "throttle": "Check/GoLiteThrottle.v",
+             "lazy": "Check/GoLiteLazy.v", "da": "Check/GoLiteDA.v"}
 _GOLITE = {
-    "C01": ("validate", "Check/GoLiteValidate.v", "execValidate = Types.validate, SignedHeader.ValidateBasic = Types.validate_basic, types.Validate = Types.validate_pair"),
-    "C02": ("validate", "Check/GoLiteValidate.v", "execValidate = Types.validate (the validation the syncer applies to every received block)"),
-    "C03": ("validate", "Check/GoLiteValidate.v", "isUsingExpectedSingleSequencer = Admission.is_expected_sequencer, isValidSignedData = Admission.is_valid_signed_data, SignedHeader.ValidateBasic = Types.validate_basic, Header.ValidateBasic (what go-header calls) = the non-empty proposer address test"),
-    "C04": ("validate", "Check/GoLiteValidate.v", "execValidate = Types.validate"),
-    "C05": ("validate", "Check/GoLiteValidate.v", "execValidate = Types.validate"),
-    "C06": ("submit", "Check/GoLiteSubmit.v", "Manager.exponentialBackoff = Submitter.exp_backoff, pendingBase.isEmpty = (store height =? watermark)"),
-    "C08": ("throttle", "Check/GoLiteThrottle.v", "pendingBase.numPending = Throttle.sub64 (uint64 subtraction with wrap-around), pendingBase.isEmpty"),
-    "C17": ("lazy", "Check/GoLiteLazy.v", "getRemainingSleep = Lazy.remaining"),
+    "C01": [("validate", "execValidate = Types.validate, SignedHeader.ValidateBasic = Types.validate_basic, types.Validate = Types.validate_pair")],
+    "C02": [("validate", "execValidate = Types.validate (the validation the syncer applies to every received block)")],
+    "C03": [("validate", "isUsingExpectedSingleSequencer = Admission.is_expected_sequencer, isValidSignedData = Admission.is_valid_signed_data, SignedHeader.ValidateBasic = Types.validate_basic, Header.ValidateBasic (what go-header calls) = the non-empty proposer address test")],
+    "C04": [("validate", "execValidate = Types.validate")],
+    "C05": [("validate", "execValidate = Types.validate")],
+    "C06": [("submit", "Manager.exponentialBackoff = Submitter.exp_backoff, pendingBase.isEmpty = (store height =? watermark)"),
+            ("da", "types.SubmitWithHelpers = Proxy.submit_helper (the status the retry loop of submitToDA switches on)")],
+    "C08": [("throttle", "pendingBase.numPending = Throttle.sub64 (uint64 subtraction with wrap-around), pendingBase.isEmpty")],
+    "C09": [("da", "types.RetrieveWithHelpers = Proxy.retrieve_helper on every path before the chunked Get loop (GetIDs error classes by message text, nil / empty id list)")],
+    "C16": [("da", "types.SubmitWithHelpers = Proxy.submit_helper on every path; types.RetrieveWithHelpers = Proxy.retrieve_helper on every path before the chunked Get loop")],
+    "C17": [("lazy", "getRemainingSleep = Lazy.remaining")],
 }
-for _k, (_g_, _file, _what) in _GOLITE.items():
+for _k, _groups in _GOLITE.items():
     _e = REGISTRY[_k]
-    _e["translators"] = list(_e.get("translators", [])) + ["tr-golite-" + _g_]
-    _e["trusted_base"] = list(_e.get("trusted_base", [])) + [
-        "golite translator (harness/translators/golite, go/ast, purely syntactic) + the evaluator of the translated fragment, Model/GoLite.v (meaning of field selections, built-in calls and methods over the symbolic vocabulary): "
-        "the Go decision functions are regenerated into coq/gen/GoLiteFuns.v on every run and %s proves for ALL arguments: %s; a construct outside the fragment is emitted as SUnknown/EUnknown, on which the evaluator fails" % (_file, _what)]
+    for (_g_, _what) in _groups:
+        _file = _GL_FILES[_g_]
+        _e["translators"] = list(_e.get("translators", [])) + ["tr-golite-" + _g_]
+        _e["trusted_base"] = list(_e.get("trusted_base", [])) + [
+            "golite translator (harness/translators/golite, go/ast, purely syntactic) + the evaluator of the translated fragment, Model/GoLite.v (meaning of field selections, built-in calls and methods over the symbolic vocabulary): "
+            "the Go decision functions are regenerated into coq/gen/GoLiteFuns.v on every run and %s proves for ALL arguments: %s; a construct outside the fragment is emitted as SUnknown/EUnknown, on which the evaluator fails" % (_file, _what)]
+        _e.setdefault("golite", []).append({"lemmas_file": _file, "what": _what})
     _e["technique"] = _e.get("technique", "") + "; decision functions translated from the Go source on every run (go/ast -> deep-embedded Gallina AST) and proved equal to the model's predicates"
-    _e["golite"] = {"lemmas_file": _file, "what": _what}
